@@ -54,7 +54,7 @@ def client_program(rng, nthreads, nops, cells=2, slots=3, maxheld=None, guard_op
 # ---------------------------------------------------------------------------------------------------------------
 # step-level reclaimer models (Model/EbrDefs.v, Model/HpDefs.v) and their trace correspondence (C01, C02)
 # ---------------------------------------------------------------------------------------------------------------
-MODEL_HARNESSES = [('ebr', (), False, ''), ('hp', ('XV_RECL=HPs<3>',), False, ''), ('qsbr', ('XV_RECL=QSBR',), False, ''), ('lfrc', ('XV_RECL=LFRC', 'XV_DEFAULT_DELETER'), False, ''), ('he', (), False, '')]
+MODEL_HARNESSES = [('ebr', (), False, ''), ('hp', ('XV_RECL=HPs<3>',), False, ''), ('qsbr', ('XV_RECL=QSBR',), False, ''), ('lfrc', ('XV_RECL=LFRC', 'XV_DEFAULT_DELETER'), False, ''), ('he', (), False, ''), ('stamp', ('XV_RECL=STAMP',), False, '')]
 
 GEBR_ALIASES = {'EBR': '_ebr', 'NEBR': '_nebr', 'DEBRA': '_debra', 'EBR0': '_ebr0', 'GEBR_lazy': '_glazy', 'GEBR_n2': '_gn2', 'GEBR_aband': '_gab', 'GEBR_thresh': '_gth', 'GEBR_t0': '_gt0'}
 GEBR_QUICK = ['NEBR', 'DEBRA', 'GEBR_thresh', 'GEBR_n2']
@@ -151,6 +151,30 @@ def model_ties(ctx, do_correspondence, tie_broken_sig):
             cases = ([GEBR_FIXED[alias]] if alias in GEBR_FIXED else []) + [gebr_model_program(rng, alias) for _ in range(4 if thorough else 2)]
             st = do_correspondence(ctx, 'gebr', Hs.pop(hn), cases, 6 if thorough else 4, 'generic_epoch_based[%s]' % alias)
             tie = tie or tie_broken_sig(st, 'gebr')
+    if 'stamp' in Hs:
+        def stamp_model_program():
+            nth = rng.choice([2, 3, 3]); ncells = rng.choice([1, 2, 2]); nslots = rng.choice([1, 2, 3])
+            prog = []
+            for _ in range(nth):
+                ops = []
+                for _ in range(rng.randint(1, 6)):
+                    kk = rng.random(); c = rng.randrange(ncells); s_ = rng.randrange(nslots)
+                    if kk < 0.3: ops.append('repl %d' % c)
+                    elif kk < 0.38: ops.append('clear %d' % c)
+                    elif kk < 0.62: ops.append('read %d' % c)
+                    elif kk < 0.78: ops.append('hold %d %d' % (c, s_))
+                    elif kk < 0.88: ops.append('drop %d' % s_)
+                    elif kk < 0.93: ops.append('deref %d' % s_)
+                    else: ops.append(rng.choice(['enter', 'leave']))
+                if rng.random() < 0.4:
+                    i = rng.randrange(len(ops) + 1); ops.insert(i, 'enter'); ops.insert(rng.randrange(i + 1, len(ops) + 1), 'leave')
+                prog.append(ops)
+            return ({'cells': str(ncells), 'slots': str(nslots), 'flushes': '4'}, prog)
+        sfixed = [({'cells': '2', 'slots': '3', 'flushes': '2'}, [['hold 0 0', 'drop 0', 'read 1'], ['repl 0']]),
+                  ({'cells': '1', 'slots': '1', 'flushes': '2'}, [['read 0'] * 6] * 3)]
+        cases = sfixed + [stamp_model_program() for _ in range(k)]
+        st = do_correspondence(ctx, 'stamp', Hs.pop('stamp'), cases, 8 if thorough else 4, 'stamp_it')
+        tie = tie or tie_broken_sig(st, 'stamp')
     if 'he' in Hs:
         cases = HE_FIXED + [model_program(rng, True) for _ in range(k)]
         for cfg, prog in cases: cfg['flushes'] = '2'
